@@ -136,7 +136,7 @@ def composes(b):
 
 
 def fn(crate, name, owner=None):
-    bs = [b for b in crate.by_name.get(name, []) if b.kind != "Closure" and (b.file or "").endswith("group/mod.rs") and (owner is None or owner in (b.impl_self or "") or crate.aliases.get(b.id) == name)]
+    bs = [b for b in crate.by_name.get(name, []) if b.kind != "Closure" and (b.file or "").startswith("src/group/") and not (b.file or "").endswith("tst.rs") and (owner is None or owner in (b.impl_self or "") or crate.aliases.get(b.id) == name)]
     if len(bs) != 1:
         raise mir.AnchorMissing("group::" + name, "found %d" % len(bs))
     return bs[0]
